@@ -354,3 +354,43 @@ def r12_10(ctx):
     from .c11 import r11_6
 
     r11_6(ctx)
+
+
+CONSUMING_READS = ("il_read", "il_exec", "effect_var", "pure_var_consumed")
+
+
+@rule("R12.11", "C12", "every printed occurrence of an operand is a read of its own: no emission method prints the result of one il_read() twice, and none keeps such a result in an attribute", min_instances=30)
+def r12_11(ctx):
+    idx = get_index(ctx.env)
+    classes = set(idx.subclasses("Pure")) | set(idx.subclasses("Effect"))
+    n = 0
+    for cname in sorted(classes):
+        if cname not in idx.classes:
+            continue
+        for m, node in idx.classes[cname].methods.items():
+            if not (m.startswith("il_") or m in ("get_reg_read_code", "get_rzil_val")):
+                continue
+            fi = idx.func(f"{cname}.{m}")
+            n += 1
+            # (a) path check: the returned text, with local bindings substituted, mentions each il_read() call site once
+            dup = []
+            try:
+                ps = paths_of(fi.node)
+            except Exception as e:
+                ctx.need(False, f"{cname}.{m}: path enumeration failed: {e}")
+            for p in ps:
+                if p.outcome != "return" or p.value is None:
+                    continue
+                seen = {}
+                for c in ast.walk(p.value):
+                    if isinstance(c, ast.Call) and isinstance(c.func, ast.Attribute) and c.func.attr == "il_read":
+                        seen[id(c)] = seen.get(id(c), 0) + 1
+                for k, v in seen.items():
+                    if v > 1:
+                        dup.append(f"path [{p.guard_text()[:50]}] prints one {[U(c) for c in ast.walk(p.value) if id(c) == k][0]} {v} times")
+            # (b) no read result stored in an attribute
+            kept = [U(s_)[:60] for s_ in ast.walk(fi.node) if isinstance(s_, ast.Assign) and any(isinstance(t, ast.Attribute) for t in s_.targets)
+                    and any(isinstance(c, ast.Call) and isinstance(c.func, ast.Attribute) and c.func.attr == "il_read" for c in ast.walk(s_.value))]
+            ctx.check(f"{cname}.{m}: one read per printed occurrence", not dup and not kept, "each occurrence of an operand in the text comes from its own il_read() call",
+                      "; ".join(dup[:2] + [f"keeps a read result: {k}" for k in kept[:1]]) or "ok", fn_where(idx, fi), nontrivial=bool(dup or kept) or any(isinstance(c, ast.Attribute) and c.attr == "il_read" for c in ast.walk(fi.node)))
+    ctx.need(n >= 30, f"only {n} emission methods inspected")
